@@ -296,6 +296,45 @@ Section Compose.
       rewrite <- (split_concat w w_pos _ _ _ E). apply in_concat. exists s. split; assumption.
   Qed.
 
+  (* ---- the parts returned together with an error: a prefix of a well-formed message, never anything else ---- *)
+  Lemma compose_parts_done_ok ref total : forall segs seq ps,
+    cparts ref total seq segs = Ok ps -> compose_parts_done P plen enc ref total seq segs = ps.
+  Proof.
+    induction segs as [|s rest IH]; intros seq ps H; cbn [compose_parts compose_parts_done] in *; [now injection H as <-|].
+    destruct (enc s) as [p|e|]; cbn [obind] in H; try discriminate.
+    destruct (Nat.ltb max_sm_len (udh_len [concat_ie ref total ((seq + 1) mod 256)] + plen p)); [discriminate|].
+    destruct (compose_parts P plen enc ref total ((seq + 1) mod 256) rest) as [ps'|e|] eqn:E; cbn [obind] in H; try discriminate.
+    injection H as <-. f_equal. exact (IH _ _ E).
+  Qed.
+
+  Lemma compose_parts_done_prefix ref total : forall segs seq,
+    exists k, cparts ref total seq (firstn k segs) = Ok (compose_parts_done P plen enc ref total seq segs).
+  Proof.
+    induction segs as [|s rest IH]; intros seq; [exists 0; reflexivity|].
+    cbn [compose_parts_done]. destruct (enc s) as [p|e|] eqn:E; [|exists 0; reflexivity|exists 0; reflexivity].
+    destruct (Nat.ltb max_sm_len (udh_len [concat_ie ref total ((seq + 1) mod 256)] + plen p)) eqn:L; [exists 0; reflexivity|].
+    destruct (IH ((seq + 1) mod 256)%N) as [k Hk]. exists (S k). cbn [firstn compose_parts]. rewrite E. cbn [obind]. rewrite L, Hk. reflexivity.
+  Qed.
+
+  (* on success the returned parts are the parts; with an error they are what a SUCCESSFUL composition of the first k segments
+     would have returned (so each of them fits 140 octets and is labelled (ref, N, i): compose_parts_rel applies) *)
+  Theorem compose_returned_multi_ok ref t parts : cmp ref t = Ok parts -> max_sm_len < text_len w t ->
+    compose_returned_multi P plen w enc ref t = parts.
+  Proof.
+    intros H L. unfold compose in H. unfold compose_returned_multi.
+    destruct (Nat.leb_spec (text_len w t) max_sm_len); [lia|].
+    destruct (split w (max_sm_len - 1 - hdr_len ref) t) as [segs|e|]; cbn [obind] in H; try discriminate.
+    destruct (Nat.ltb 254 (length segs)); [discriminate|]. now apply compose_parts_done_ok.
+  Qed.
+
+  Theorem compose_returned_multi_prefix ref t : forall segs, split w (max_sm_len - 1 - hdr_len ref) t = Ok segs ->
+    length segs <= 254 ->
+    exists k, cparts ref (N.of_nat (length segs) mod 256) 0 (firstn k segs) = Ok (compose_returned_multi P plen w enc ref t).
+  Proof.
+    intros segs ES Hl. unfold compose_returned_multi. rewrite ES.
+    destruct (Nat.ltb_spec 254 (length segs)); [lia|]. apply compose_parts_done_prefix.
+  Qed.
+
   (* ---- the size check never fires when Splitter.Len bounds the encoder ---- *)
   Hypothesis enc_len_sound : forall s p, enc s = Ok p -> plen p <= (total w s + 7) / 8.
   Hypothesis enc_no_esize : forall s, enc s <> Err ESize.
